@@ -66,6 +66,39 @@ func runC02(c *Ctx) {
 	ruleWhitespaceSet(c)
 }
 
+// factIndex: where on the path a fact was established — the index of its block, or, for a fact that comes from inside a
+// pure predicate the path enumerator expanded, the index of the block that calls that predicate. -1 when unknown.
+func factIndex(pf pathFact, blocks []*ssa.BasicBlock) int {
+	if pf.from == nil {
+		return -1
+	}
+	for i, b := range blocks {
+		if b == pf.from {
+			return i
+		}
+	}
+	callee := pf.from.Parent()
+	for i, b := range blocks {
+		for _, call := range callsIn(b) {
+			g := call.Call.StaticCallee()
+			for depth := 0; g != nil && depth < 3; depth++ {
+				if g == callee {
+					return i
+				}
+				// one more level: a predicate called by the predicate
+				var next *ssa.Function
+				allInstrs(g, func(_ *ssa.BasicBlock, _ int, in ssa.Instruction) {
+					if c2, ok := in.(*ssa.Call); ok && c2.Call.StaticCallee() == callee {
+						next = callee
+					}
+				})
+				g = next
+			}
+		}
+	}
+	return -1
+}
+
 // ruleSeparatorRefusals (R2.4c): the refusing paths of the separator predicates that have established "the next token
 // follows a line break".
 func ruleSeparatorRefusals(c *Ctx, t *tables, a *parserAnchors) {
@@ -849,10 +882,8 @@ func ruleRestrictedProductions(c *Ctx, t *tables, a *parserAnchors) {
 					if pf.at.kind != atPeekNewline || !pf.at.neg {
 						continue
 					}
-					for i, b := range blocks {
-						if b == pf.from && i <= firstAdv && i <= at {
-							found = true
-						}
+					if i := factIndex(pf, blocks); i >= 0 && i <= firstAdv && i <= at {
+						found = true
 					}
 				}
 				if !found {
@@ -893,10 +924,8 @@ func ruleRestrictedProductions(c *Ctx, t *tables, a *parserAnchors) {
 					if pf.at.kind != atPeekType || !pf.at.neg || pf.at.k != k {
 						continue
 					}
-					for i, b := range blocks {
-						if b == pf.from && i <= firstAdv && i <= at {
-							found = true
-						}
+					if i := factIndex(pf, blocks); i >= 0 && i <= firstAdv && i <= at {
+						found = true
 					}
 				}
 				if !found {
